@@ -260,9 +260,17 @@ func vopSnapshot(c client.Client, scheme *runtime.Scheme, kinds []schema.GroupVe
 	return out, nil
 }
 
-// vopDiff returns (key, json path) of the first difference between two snapshots in key order.
-// The path has slice indices replaced by [] so that it names a field, not an element.
-func vopDiff(a, b map[string]string) (string, string, bool) {
+// vopDiffResult names the first difference between two snapshots (in key order).
+type vopDiffResult struct {
+	Key    string // "Kind/namespace/name"
+	Path   string // json path, slice indices replaced by [] so that it names a field, not an element
+	Before string // value at Path in the first snapshot (clipped)
+	After  string
+}
+
+// vopDiff compares two snapshots. Inside an object a difference outside metadata.resourceVersion is
+// preferred; a bare resourceVersion bump (an Update that changed nothing else) is reported as such.
+func vopDiff(a, b map[string]string) (vopDiffResult, bool) {
 	keys := map[string]bool{}
 	for k := range a {
 		keys[k] = true
@@ -280,25 +288,44 @@ func vopDiff(a, b map[string]string) (string, string, bool) {
 		bv, bok := b[k]
 		switch {
 		case !aok:
-			return k, "<object-added>", true
+			return vopDiffResult{Key: k, Path: "<object-added>", After: vopClip(bv)}, true
 		case !bok:
-			return k, "<object-removed>", true
+			return vopDiffResult{Key: k, Path: "<object-removed>", Before: vopClip(av)}, true
 		case av != bv:
 			var x, y any
 			_ = json.Unmarshal([]byte(av), &x)
 			_ = json.Unmarshal([]byte(bv), &y)
-			return k, vopJSONPathDiff(x, y, ""), true
+			if p, xv, yv, ok := vopJSONPathDiff(x, y, "", true); ok {
+				return vopDiffResult{Key: k, Path: p, Before: vopClip(vopJSON(xv)), After: vopClip(vopJSON(yv))}, true
+			}
+			p, xv, yv, _ := vopJSONPathDiff(x, y, "", false)
+			return vopDiffResult{Key: k, Path: p, Before: vopClip(vopJSON(xv)), After: vopClip(vopJSON(yv))}, true
 		}
 	}
-	return "", "", false
+	return vopDiffResult{}, false
 }
 
-func vopJSONPathDiff(x, y any, path string) string {
+func vopJSON(v any) string {
+	b, _ := json.Marshal(v)
+	return string(b)
+}
+
+func vopClip(s string) string {
+	if len(s) > 400 {
+		return s[:400] + "…"
+	}
+	return s
+}
+
+func vopJSONPathDiff(x, y any, path string, skipRV bool) (string, any, any, bool) {
+	if skipRV && path == ".metadata.resourceVersion" {
+		return "", nil, nil, false
+	}
 	switch xv := x.(type) {
 	case map[string]any:
 		yv, ok := y.(map[string]any)
 		if !ok {
-			return path
+			return path, x, y, true
 		}
 		ks := map[string]bool{}
 		for k := range xv {
@@ -316,33 +343,36 @@ func vopJSONPathDiff(x, y any, path string) string {
 			xe, xok := xv[k]
 			ye, yok := yv[k]
 			p := path + "." + k
-			if xok != yok {
-				return p
+			if skipRV && p == ".metadata.resourceVersion" {
+				continue
 			}
-			if d := vopJSONPathDiff(xe, ye, p); d != "" {
-				return d
+			if xok != yok {
+				return p, xe, ye, true
+			}
+			if dp, dx, dy, differs := vopJSONPathDiff(xe, ye, p, skipRV); differs {
+				return dp, dx, dy, true
 			}
 		}
-		return ""
+		return "", nil, nil, false
 	case []any:
 		yv, ok := y.([]any)
 		if !ok {
-			return path
+			return path, x, y, true
 		}
 		if len(xv) != len(yv) {
-			return path + "[len]"
+			return path + "[len]", len(xv), len(yv), true
 		}
 		for i := range xv {
-			if d := vopJSONPathDiff(xv[i], yv[i], path+"[]"); d != "" {
-				return d
+			if dp, dx, dy, differs := vopJSONPathDiff(xv[i], yv[i], path+"[]", skipRV); differs {
+				return dp, dx, dy, true
 			}
 		}
-		return ""
+		return "", nil, nil, false
 	default:
 		if fmt.Sprint(x) != fmt.Sprint(y) {
-			return path
+			return path, x, y, true
 		}
-		return ""
+		return "", nil, nil, false
 	}
 }
 
